@@ -34,8 +34,11 @@ OPEN_STATEMENTS = [
     'givens_decomposition_square output is such a description is checked on generated matrices (correspondence)',
     'bogoliubov_transform / prepare_* / optimal_givens_decomposition / ffft: the conjugation identity and the prepared '
     'states are checked numerically (oracle, <= 5 resp. 8 qubits); the Givens decompositions themselves belong to C11; '
-    'ffft_spec_partial proves that the Cooley-Tukey index recursion gives the DFT exponent table for every factor list; that each '
-    'emitted gate acts on the single-particle coefficients as the recursion assumes (hence the unitary claim) is NOT proved (oracle)',
+    'ffft: for 2^M modes ffft_pow2_is_dft proves that the emitted op list implements the DFT on the one-particle sector, given the '
+    'single-gate actions of F0 / _TwiddleGate / _permute (checked against the real gate classes: gate-action oracle); for other sizes '
+    'only ffft_spec_partial (index recursion = DFT exponent table for every factor list) is proved — the prime-size blocks are '
+    'bogoliubov_transform circuits (C11); the extension from the one-particle sector to the full Fock space (U a^_k U^-1 as an '
+    'operator identity) and the normalisation 2^{-M/2} are the oracle',
     'swap_network: the number of callback calls n(n-1)/2 is implied by swap_network_pair_once + swap_network_calls_adjacent '
     'but not stated as a separate theorem',
 ]
@@ -1200,6 +1203,43 @@ def primitives_stream(ctx, lad):
                     v = U[:, init]
                     check(case, 'state: prepare_gaussian_state (spin sectors) is the eigenstate with the sector energy sum',
                           max(maxdiff(Hm @ v, E * v), abs(np.linalg.norm(v) - 1)), 1e-8)
+    # single-gate actions assumed by applyFfftOp (hypotheses of ffft_pow2_is_dft) on the real gate classes
+    import importlib
+    ffm = importlib.import_module('openfermion.circuits.primitives.ffft')
+    lad.prefetch([2, 4, 5])
+    case = {'fn': 'ffft gate actions'}
+    st.case(case)
+    ok, UF = safe(st, 'unitary(F0)', case, lambda: cirq.unitary(ffm.F0))
+    if ok:
+        r2 = 2 ** -0.5
+        check(case, 'gate-action: F0 a^_0 F0^-1 = (a^_0 + a^_1)/sqrt 2',
+              maxdiff(UF @ lad.get(2, 0, 1) @ UF.conj().T, r2 * (lad.get(2, 0, 1) + lad.get(2, 1, 1))))
+        check(case, 'gate-action: F0 a^_1 F0^-1 = (a^_0 - a^_1)/sqrt 2',
+              maxdiff(UF @ lad.get(2, 1, 1) @ UF.conj().T, r2 * (lad.get(2, 0, 1) - lad.get(2, 1, 1))))
+    for (kk, nn) in ((0, 4), (1, 4), (3, 8), (5, 6), (7, 16)):
+        q2 = cirq.LineQubit.range(2)
+        ok, UT = safe(st, 'unitary(_TwiddleGate)', case,
+                      lambda: circuit_unitary(cirq, [ffm._TwiddleGate(kk, nn).on(q2[1])], q2))
+        if ok:
+            check(case, 'gate-action: twiddle(k, n) a^_q = e^{-2 pi i k/n} a^_q',
+                  maxdiff(UT @ lad.get(2, 1, 1) @ UT.conj().T, np.exp(-2j * np.pi * kk / nn) * lad.get(2, 1, 1)))
+            check(case, 'gate-action: twiddle leaves the other mode alone',
+                  maxdiff(UT @ lad.get(2, 0, 1) @ UT.conj().T, lad.get(2, 0, 1)))
+    for npm in (4, 5):
+        qp = cirq.LineQubit.range(npm)
+        perm = list(range(npm))
+        rng.shuffle(perm)
+        ok, UP = safe(st, 'unitary(_permute)', case, lambda: circuit_unitary(cirq, ffm._permute(qp, perm), qp))
+        if ok:
+            for i in range(npm):
+                check(dict(case, permutation=perm), 'gate-action: _permute a^_i = a^_{pi(i)}',
+                      maxdiff(UP @ lad.get(npm, i, 1) @ UP.conj().T, lad.get(npm, perm[i], 1)))
+            ok, UPi = safe(st, 'unitary(inverse(_permute))', case,
+                           lambda: circuit_unitary(cirq, cirq.inverse(ffm._permute(qp, perm)), qp))
+            if ok:
+                for i in range(npm):
+                    check(dict(case, permutation=perm), 'gate-action: inverse(_permute) a^_{pi(i)} = a^_i',
+                          maxdiff(UPi @ lad.get(npm, perm[i], 1) @ UPi.conj().T, lad.get(npm, i, 1)))
     # ffft
     for n in range(1, (8 if (ctx.tier == 'thorough' or ctx.drift) else 6) + 1):
         qubits = cirq.LineQubit.range(n)
@@ -1224,6 +1264,17 @@ def primitives_stream(ctx, lad):
             if not maxdiff(C, want) <= 1e-8:
                 st.disagree('ffft single-particle coefficients vs the Model exponent table ctExp', case,
                             np.round(C, 6).tolist(), table)
+            if n >= 2 and n & (n - 1) == 0:
+                # the operations of the Model (runFfft on integer polynomials in omega_n mod omega^(n/2) = -1, the function
+                # of theorem ffft_pow2_is_dft) vs the real circuit: sqrt(n) C_kj = polynomial evaluated at e^{-2 pi i/n}
+                sim = ctx.driver.one({'op': 'c14.ffftsim', 'n': n})
+                om = np.exp(-2j * np.pi / n)
+                S = np.array([[sum(c * om ** e for e, c in enumerate(poly)) for poly in row] for row in sim])
+                st.float_comparisons += 1
+                st.count('ffft:gate-action-simulation')
+                if not maxdiff(np.sqrt(n) * C, S) <= 1e-8:
+                    st.disagree('ffft single-particle coefficients vs the Model operation semantics runFfft', case,
+                                np.round(np.sqrt(n) * C, 6).tolist(), sim)
     return st
 
 
